@@ -8,7 +8,7 @@
     0..m-1 in delivery order, none empty, all of [size] records except possibly the last. *)
 From Coq Require Import List Arith NArith Bool Permutation.
 From OBI.Common Require Import Reseq.
-From OBI.C03 Require Import Model Proofs.
+From OBI.C03 Require Import Model Proofs Model3 Proofs3.
 Import ListNotations.
 
 (** SortBatches (= the proved resequencer of Common/Reseq) delivers the batches in numbering order. *)
@@ -320,6 +320,105 @@ Proof.
   split; [vm_compute; reflexivity|]. eexists. split; [vm_compute; reflexivity|reflexivity].
 Qed.
 
+(** ================================================================ round 3 ============================
+    Workers that fail and chained workers (obiseq/worker.go). A worker is [A -> option (list A)], [None] = error.
+    Whatever the schedule of the pool ([e]: any delivery order of the mapped batches), the re-sequenced output of
+    MakeIWorker(w1.ChainWorkers(w2), false) is the input stream through w1 then through w2 as two consecutive
+    stages: every output record of w1 goes through w2 exactly once, in order; a record on which a worker fails
+    contributes nothing (it is logged), all the others are kept; a nil worker is the identity. *)
+Theorem C03_chainworkers : forall (A : Type) (w1 w2 : option (A -> option (list A))) (bs : list (list A)) (h e : list (nat * list A)),
+  Permutation h (numbered_from 0 bs) -> Permutation e (eworker_map (chain w1 w2) h) ->
+  map fst (sortb e) = seq 0 (length bs) /\
+  flatten (sortb e) = slice_worker w2 (slice_worker w1 (concat bs)).
+Proof. exact chain_pool_sorted. Qed.
+(** with breakOnError the run stops exactly when the FIRST worker of the chain fails on some record: the
+    failures of the second one are logged and dropped inside the chain (transcribed from ChainWorkers, which
+    wraps [next] in SeqToSliceWorker(next, false)) *)
+Theorem C03_chainworkers_failures : forall (A : Type) (f g : A -> option (list A)) (l : list A),
+  slice_fails (chain (Some f) (Some g)) l = slice_fails (Some f) l.
+Proof. exact slice_fails_chain. Qed.
+
+(** a conditional worker that fails: the conditional slice worker is [cond_worker] of the lifted worker, so
+    C03_conditional_worker / C03_conditional_worker_keeps_unselected apply: a failure drops the selected record it
+    occurs on and nothing else; a record that is not selected is kept even when the worker would fail on it. *)
+Theorem C03_conditional_worker_failures : forall (A : Type) (c : A -> bool) (f : A -> option (list A)) (l : list A),
+  flat_map (cond_eworker c f) l = flat_map (cond_worker c (lift f)) l /\
+  (cond_fails c f l = true <-> exists x, In x l /\ c x = true /\ f x = None).
+Proof. exact cond_eworker_spec. Qed.
+
+(** Count: the numbers of variants, reads and nucleotides do not depend on the partition into batches nor on
+    the arrival order of the batches. *)
+Theorem C03_count : forall (A : Type) (cnt len : A -> nat) (bs : list (list A)) (h : list (nat * list A)),
+  Permutation h (numbered_from 0 bs) ->
+  count_of cnt len h = (length (concat bs), list_sum (map cnt (concat bs)), list_sum (map len (concat bs))).
+Proof. exact count_spec. Qed.
+
+(** two Rebatch stages of the same size around a filter (Rebatch | FilterOn): exactly the selected records, in
+    order, batches 0..m-1 full except the last — whatever the batch boundaries of the input (in particular batches
+    of exactly [size] records arriving while a remainder is buffered). *)
+Theorem C03_rebatch_filter : forall (A : Type) (p : A -> bool) size (bs : list (list A)) (h : list (nat * list A)),
+  1 <= size -> Permutation h (numbered_from 0 bs) ->
+  chunked size (rebatch_filter p size h) (filter p (concat bs)).
+Proof. exact rebatch_filter_spec. Qed.
+
+(** paired obigrep (PairTo | FilterOn / FilterAnd): for two files holding the same number of records, whatever
+    their two partitions and arrival orders, the output is exactly the PAIRS (k-th forward record, k-th reverse
+    record) selected by the predicate on pairs, in order, in batches numbered 0..m-1: no pair is lost, no mate
+    is shifted. *)
+Theorem C03_pairto_filter : forall (A : Type) (pp : A * A -> bool) size (bs1 bs2 : list (list A)) (h1 h2 : list (nat * list A)),
+  1 <= size -> Permutation h1 (numbered_from 0 bs1) -> Permutation h2 (numbered_from 0 bs2) ->
+  length (concat bs1) = length (concat bs2) ->
+  exists r, pairto_filter pp size h1 h2 = Some r /\
+            chunked size r (filter pp (combine (concat bs1) (concat bs2))).
+Proof. exact pairto_filter_spec. Qed.
+
+(** The list of input files of a command (ExpandListOfFiles), for EVERY file system [fs] and argument list:
+    no file is read twice; a regular file named on the command line is always read, whatever its name and
+    whatever precedes it; every sequence file below a directory named on the command line is read; nothing else
+    is read; and the only error is an argument that does not exist. *)
+Theorem C03_expand_no_duplicate : forall fs args r, expand fs args = Some r -> NoDup r.
+Proof. exact expand_nodup. Qed.
+Theorem C03_expand_named_file : forall fs args r a e,
+  expand fs args = Some r -> In a args -> lookup fs a = Some e -> e_dir e = false -> In a r.
+Proof. exact expand_named_file. Qed.
+Theorem C03_expand_directory_content : forall fs args r a d e,
+  expand fs args = Some r -> In a args -> lookup fs a = Some d -> e_dir d = true ->
+  In e fs -> is_prefix a (e_path e) = true -> e_dir e = false -> e_ext e = true -> In (e_path e) r.
+Proof. exact expand_dir_content. Qed.
+Theorem C03_expand_nothing_else : forall fs args r x, expand fs args = Some r -> In x r ->
+  exists a e, In a args /\ lookup fs a = Some e /\
+              ((e_dir e = false /\ x = a) \/
+               (e_dir e = true /\ exists f, In f fs /\ e_path f = x /\ is_prefix a x = true /\ e_dir f = false /\ e_ext f = true)).
+Proof. exact expand_sound. Qed.
+(** ... in the order of the command line: when no file is reached twice, the list is the concatenation, argument after
+    argument, of what each argument contributes ([contrib]: a named file: itself; a directory: its sequence files in the
+    order filepath.Walk visits them); in general it is that concatenation with every path kept at its first occurrence
+    (C03_expand_no_duplicate, C03_expand_nothing_else). *)
+Theorem C03_expand_order : forall fs args r, expand fs args = Some r ->
+  NoDup (concat (map (contrib fs) args)) -> r = concat (map (contrib fs) args).
+Proof. exact expand_order. Qed.
+Theorem C03_expand_total : forall fs args, (forall a, In a args -> lookup fs a <> None) -> exists r, expand fs args = Some r.
+Proof. intros fs args H. exact (expand_total fs args [] H). Qed.
+(** the code before the fix: a file named after a directory is dropped ([d1/f1.fasta] and [f2.txt], arguments d1 f2.txt) *)
+Theorem C03_expand_v0_refuted : exists fs args a e r,
+  expand_v0 fs args = Some r /\ In a args /\ lookup fs a = Some e /\ e_dir e = false /\ ~ In a r.
+Proof. exact expand_v0_refuted. Qed.
+
+Example C03_round3_nonvacuous :
+  (* a chain whose two workers fail on some records, two workers in the pool *)
+  (let f := fun i => if Nat.eqb i 3 then None else Some [i; i + 10] in
+   let g := fun i => if Nat.eqb i 14 then None else Some [i] in
+   eworker_map (chain (Some f) (Some g)) [(1, [3; 4]); (0, [1])] = [(1, [4]); (0, [1; 11])] /\
+   slice_fails (chain (Some f) (Some g)) [4] = false /\ slice_fails (chain (Some f) (Some g)) [3] = true) /\
+  (* a batch of exactly [size] records arrives while a remainder is buffered *)
+  rebatch_filter (fun i => negb (Nat.eqb i 5)) 3 [(0, [1]); (2, [5; 6; 7]); (1, [2; 3; 4])] = [(0, [1; 2; 3]); (1, [4; 6; 7])] /\
+  pairto_filter (fun xy => Nat.even (fst xy)) 2 [(1, [3; 4]); (0, [1; 2])] [(0, [11; 12; 13]); (1, [14])] = Some [(0, [(2, 12); (4, 14)])] /\
+  (* directory, then a named file without a sequence-file extension, named twice *)
+  expand [mke [1%N] true false; mke [1%N; 1%N] false true; mke [1%N; 2%N] false false; mke [2%N] false false] [[1%N]; [2%N]; [2%N]]
+    = Some [[1%N; 1%N]; [2%N]] /\
+  count_of (fun i => i) (fun _ => 2) [(1, [3; 4]); (0, [1])] = (3, 8, 6).
+Proof. vm_compute. repeat split; reflexivity. Qed.
+
 Print Assumptions C03_sortbatches.
 Print Assumptions C03_rebatch.
 Print Assumptions C03_filterempty.
@@ -365,3 +464,16 @@ Print Assumptions C03_protocol_instances.
 Print Assumptions C03_protocol_trace_sound.
 Print Assumptions C03_load_v0_refuted.
 Print Assumptions C03_conditional_worker_keeps_unselected.
+Print Assumptions C03_chainworkers.
+Print Assumptions C03_chainworkers_failures.
+Print Assumptions C03_conditional_worker_failures.
+Print Assumptions C03_count.
+Print Assumptions C03_rebatch_filter.
+Print Assumptions C03_pairto_filter.
+Print Assumptions C03_expand_no_duplicate.
+Print Assumptions C03_expand_named_file.
+Print Assumptions C03_expand_directory_content.
+Print Assumptions C03_expand_nothing_else.
+Print Assumptions C03_expand_order.
+Print Assumptions C03_expand_total.
+Print Assumptions C03_expand_v0_refuted.
